@@ -41,6 +41,9 @@ type e4Config struct {
 	PingDelayMs int `json:"pingDelayMs,omitempty"`
 	// OnErrorCalls: the OnError callback reads the client's statistics and current BaseClient (an application logging them)
 	OnErrorCalls bool `json:"onErrorCalls,omitempty"`
+	// MaxPayload > 0: every BaseClient the dialler hands out has MaxPayloadLen set to it (C05 only: a message over the
+	// limit accepted before the first connection exists is dropped later, which the no-loss oracles would report)
+	MaxPayload int `json:"maxPayload,omitempty"`
 	// ChatterUs > 0: from the first connection on the application publishes a QoS0 message every ChatterUs microseconds
 	// (steady outbound traffic); after a peer went silent it goes on for at least 100 keep-alive periods, then stops
 	ChatterUs int `json:"chatterUs,omitempty"`
@@ -99,6 +102,7 @@ type e4Req struct {
 	Step     e4Step
 	PreConn  bool
 	InOutage bool
+	Oversize bool // payload over the clients' MaxPayloadLen: can never be carried out, whatever Publish returned
 }
 
 type e4ConnEnd struct {
@@ -311,7 +315,7 @@ func (e *e4Env) settle(maxWait time.Duration, needAcks bool) (bool, bool) {
 		e.mu.Lock()
 		defer e.mu.Unlock()
 		for _, q := range e.res.Reqs {
-			if q.Err != nil || (q.Kind == "pub" && q.QoS == 0) {
+			if q.Err != nil || (q.Kind == "pub" && q.QoS == 0) || q.Oversize {
 				continue
 			}
 			if _, ok := e.b.acked[q.Tag]; !ok {
@@ -434,6 +438,7 @@ func e4RunBody(c e4Case, started chan<- *e4Env) (res *e4Result) {
 	b.grantMax = c.Cfg.GrantMax
 	b.pingDelay = time.Duration(c.Cfg.PingDelayMs) * time.Millisecond
 	d := &vdialer{b: b, maxRead: c.Cfg.MaxRead}
+	d.maxPayload = c.Cfg.MaxPayload
 	if c.Cfg.Transport != 0 {
 		d.flavour = func(conn int) int { return (c.Cfg.Transport + conn - 1) & 15 }
 	}
@@ -666,6 +671,7 @@ func e4RunBody(c e4Case, started chan<- *e4Env) (res *e4Result) {
 			err = cli.Unsubscribe(ctx, fs...)
 		}
 		q.Err = err
+		q.Oversize = s.Kind == "pub" && c.Cfg.MaxPayload > 0 && len(e4Payload(s.Idx, s.Extra)) >= c.Cfg.MaxPayload
 		q.Seq = log.add(0, "SUBMIT", nil, fmt.Sprintf("%s idx=%d q%d err=%v", s.Kind, s.Idx, s.QoS, err))
 		e.mu.Lock()
 		res.Reqs = append(res.Reqs, q)
